@@ -4,7 +4,7 @@
    gives an online, append-only assembler).  Proved for the id-reuse / classification / visibility logic
    of FromPcap (Import.dump, Import.classify, reader stack); the extension property itself is proved for
    no assembler here (UDP: one flow alone, see C05) and is what the correspondence runs check. *)
-From Pk Require Import Import ImportProofs ImportExamples ImportSnapshot ImportSnapshotUdp ImportRestart BuilderOrder UdpInterleave UdpReplay.
+From Pk Require Import Import ImportProofs ImportExamples ImportSnapshot ImportSnapshotUdp ImportRestart ImportBatchUdp BuilderOrder Udp UdpInterleave UdpReplay.
 From Pk Require Import ImportIndex.
 Require Pk.IndexFormat Pk.IndexFormatWriter Pk.IndexFormatPackets Pk.IndexFormatLookup.
 From Coq Require Import Sorting.Permutation.
@@ -35,6 +35,33 @@ Theorem C08_ids_unique : forall steps id1 id2 s1 s2,
   newest (run_batches [] steps) id1 = Some s1 -> newest (run_batches [] steps) id2 = Some s2 ->
   first_source s1 = first_source s2 -> id1 = id2.
 Proof. exact ids_unique. Qed.
+
+(* (2e) the extension hypothesis is DISCHARGED for the UDP assembler.  [W F] = the stream list the UDP assembler builds from
+   feed F (for every hash function: [Wr F = fst (udp_run hashf F)]), Complete flags cleared (never written to the index).
+   [batches_ok]: every batch brings packets of its own new capture files only, after all earlier packets (the feed of
+   import k+1 is the feed of import k followed by the new packets = chronological arrival), and (file, index) identifies a
+   packet.  Then every batching shows the streams one import of everything assembles, same ids -- no assembler hypothesis. *)
+Theorem C08_udp_assemblies_extend : forall nf F G,
+  Forall (fun p => mem_file (p_file p) nf = false) F -> Forall (fun p => mem_file (p_file p) nf = true) G ->
+  extends nf (W F) (W (F ++ G)).
+Proof. exact udp_extends. Qed.
+
+Theorem C08_udp_batches_visible : forall bs id, batches_ok [] bs ->
+  newest (run_batches [] (usteps [] bs)) id = nth_error (W (flat_map snd bs)) (N.to_nat id).
+Proof. exact udp_batches_visible. Qed.
+
+Theorem C08_udp_batched_equals_oneshot : forall bs allfiles id, batches_ok [] bs ->
+  batches_ok [] [(allfiles, flat_map snd bs)] ->
+  newest (run_batches [] (usteps [] bs)) id = newest (run_batches [] (usteps [] [(allfiles, flat_map snd bs)])) id.
+Proof. exact udp_batched_equals_oneshot. Qed.
+
+(* with the factories as the run leaves them (Complete flags included): what is written differs only in that flag *)
+Theorem C08_udp_real_batches_visible : forall bs id, batches_ok [] bs ->
+  option_map forget (newest (run_batches [] (rsteps [] bs)) id) = nth_error (W (flat_map snd bs)) (N.to_nat id).
+Proof. exact udp_real_batches_visible. Qed.
+
+Theorem C08_udp_factory_is_model_factory : forall hashf F, Wr F = fst (udp_run hashf F).
+Proof. exact Wr_udp_run. Qed.
 
 (* the steps of [run_batches] ARE FromPcap calls: without a usable snapshot and below the snapshot interval,
    Import.import = assemble the feed of all known and new captures (C05: the global sort), then [dump] *)
